@@ -176,7 +176,7 @@ pub fn paste(w: &World, main_file: &str) -> Result<Flat, String> {
     // ancestor, whether or not its conditional branch is taken - used only to recognise
     // ambiguity conservatively (the model does not evaluate conditions)
     fn go(w: &World, file: &str, inherited: &[String], possible: &[String], anc_dirs: &[String], flat: &mut Flat, out: &mut Vec<String>, depth: usize) -> Result<(), String> {
-        if depth > 24 {
+        if depth > 80 {
             return Err("model: include depth".into());
         }
         let text = w.files.get(file).ok_or_else(|| format!("model: no file {}", file))?;
